@@ -4,6 +4,7 @@ POSTCONDITION TraceAccepted
 CHECK_DEADLOCK FALSE
 INVARIANTS
   C10_ConfigNoCrash_MultiCut
+  C10_ReadBack_NoDangling
   C10_Eval_StaleSet
   C10_Eval_CorruptStmt
   C10_Eval_ExtSetDelete
